@@ -689,15 +689,20 @@ class _MissingImportFinder:
             assert node._fields ==  ('name', 'args', 'body', 'decorator_list', 'returns', 'type_comment', 'type_params'), node._fields
         else:
             assert node._fields ==  ('name', 'args', 'body', 'decorator_list', 'returns', 'type_comment'), node._fields
+        # Decorators are evaluated in the enclosing scope; they cannot see the
+        # parameters (nor can a lambda inside a decorator).
+        self.visit(node.decorator_list)
         with self._NewScopeCtx(include_class_scopes=True):
             # we want `__class__` to only be defined in
             # methods and not class body
             if self._in_class_def:
                 self.scopestack[-1]["__class__"] = None  # we just need to to be defined
-            self.visit(node.decorator_list)
             self.visit(node.args)
             if node.returns:
-                self.visit(node.returns)
+                # The return annotation is evaluated in the enclosing scope;
+                # it cannot see the parameters.
+                with self._UpScopeCtx():
+                    self.visit(node.returns)
             self._visit_typecomment(node.type_comment)
             old_in_FunctionDef = self._in_FunctionDef
             self._in_FunctionDef = True
@@ -767,6 +772,12 @@ class _MissingImportFinder:
             for i in node.kw_defaults:
                 if i:
                     self.visit(i)
+            # Annotations are evaluated in the enclosing scope too; they
+            # cannot see the parameters.
+            for arg in (node.posonlyargs + node.args + node.kwonlyargs
+                        + [a for a in (node.vararg, node.kwarg) if a]):
+                if arg.annotation:
+                    self.visit(arg.annotation)
         # Store arg names.
         self.visit(node.args)
         self.visit(node.kwonlyargs)
@@ -925,8 +936,8 @@ class _MissingImportFinder:
 
     def visit_arg(self, node):
         assert node._fields == ('arg', 'annotation', 'type_comment'), node._fields
-        if node.annotation:
-            self.visit(node.annotation)
+        # The annotation is visited by visit_arguments(), in the enclosing
+        # scope.
         # Treat it like a Name node would from Python 2
         self._visit_fullname(node.arg, ast.Param())
         self._visit_typecomment(node.type_comment)
